@@ -118,6 +118,54 @@ def check(case):
     return None
 
 
+def check_tracking(case):
+    """tracking through the manager: the scene's CLEAR counts per label are the sums of the frames' own counts (each frame against its predecessor, nothing else)"""
+    from perception_eval.common.dataset import FrameGroundTruth
+    targets = ["car", "pedestrian", "bicycle"]
+    mgr, ev = manager("tracking", targets)
+    totals = {}
+    for fi, f in enumerate(case["frames"]):
+        gt = FrameGroundTruth(fi * 100000, str(fi), [build.obj3d(d) for d in f["gt"]], transforms=build.ego_matrix(None))
+        cof, pfc = crit_cfg(ev, targets, 50.0)
+        fr = mgr.add_frame_result(fi * 100000, gt, [build.obj3d(d) for d in f["est"]], cof, pfc)
+        for ts in fr.metrics_score.tracking_scores:
+            for c in ts.clears:
+                k = (str(ts.matching_mode), str(c.target_labels[0]))
+                t = totals.setdefault(k, [0.0, 0.0, 0])
+                t[0] += c.tp; t[1] += c.fp; t[2] += c.id_switch
+    scene = mgr.get_scene_result()
+    for ts in scene.tracking_scores:
+        for c in ts.clears:
+            k = (str(ts.matching_mode), str(c.target_labels[0]))
+            want = totals.get(k, [0.0, 0.0, 0])
+            if [c.tp, c.fp, c.id_switch] != want:
+                return f"scene CLEAR counts (TP, FP, switches) for {k} are {[c.tp, c.fp, c.id_switch]}, the frames' own counts add up to {want}"
+    return None
+
+
+def gen_tracking(rnd):
+    pts = [-7.0, -3.0, 1.5, 6.0]
+    ids = ["a", "b", "c"]
+    fs = []
+    for fi in range(rnd.randint(3, 5)):
+        est, gt = [], []
+        if rnd.random() < 0.75:       # sometimes a frame without any result or ground truth of a label (or at all)
+            for i, x in enumerate(rnd.sample(pts, rnd.randint(1, 3))):
+                lab = rnd.choice(["car", "car", "pedestrian"])
+                gt.append(dict(label=lab, x=x, y=0.5 * i, uuid="g" + rnd.choice(ids), pts=5))
+                if rnd.random() < 0.8:
+                    est.append(dict(label=lab, x=x + 0.2, y=0.5 * i, uuid="e" + rnd.choice(ids), score=0.5 + 0.1 * i))
+            # unique ids per frame
+            for lst in (est, gt):
+                seen = set()
+                for d in list(lst):
+                    if d["uuid"] in seen:
+                        lst.remove(d)
+                    seen.add(d["uuid"])
+        fs.append(dict(est=est, gt=gt))
+    return dict(frames=fs)
+
+
 def gen(rnd):
     pts = [-7.0, -3.0, -1.0, 1.5, 4.0, 8.0]
     fs = []
@@ -146,12 +194,20 @@ def search(item, seed):
             why = f"raised {type(ex).__name__}: {ex}"
         if why:
             return dict(function="manager", input=case, observed=why)
+    for _ in range(budget(40)):
+        case = gen_tracking(rnd)
+        try:
+            why = check_tracking(case)
+        except Exception as ex:
+            why = f"raised {type(ex).__name__}: {ex}"
+        if why:
+            return dict(function="manager-tracking", input=case, observed=why)
     return None
 
 
 def replay(payload):
     try:
-        why = check(payload["input"])
+        why = check_tracking(payload["input"]) if payload.get("function") == "manager-tracking" else check(payload["input"])
     except Exception as ex:
         why = f"raised {type(ex).__name__}: {ex}"
     return (why is None, why or "ok")
